@@ -125,6 +125,15 @@ def expand_locals(fnode: ast.AST, e: ast.AST, depth: int = 4, skip: Iterable[str
         if isinstance(n, ast.Call) and isinstance(n.func, ast.Attribute) and isinstance(n.func.value, ast.Name) and \
                 n.func.attr in ("append", "add", "extend", "update", "remove", "pop", "insert", "sort", "clear", "discard", "fill", "setdefault"):
             skip.add(n.func.value.id)
+    # ... also when it is mutated through a view local (`row = X[i]; row[j] = v` mutates X)
+    for _ in range(3):
+        for n in walk_no_nested(fnode):
+            if isinstance(n, ast.Assign) and len(n.targets) == 1 and isinstance(n.targets[0], ast.Name) and n.targets[0].id in skip and isinstance(n.value, ast.Subscript):
+                base = n.value
+                while isinstance(base, (ast.Subscript, ast.Attribute)):
+                    base = base.value
+                if isinstance(base, ast.Name):
+                    skip.add(base.id)
 
     def bound_inside(x: ast.AST) -> Set[str]:
         out = set()
@@ -391,6 +400,24 @@ def subst_views(e: ast.AST, env: Dict[str, ast.AST], depth: int = 4) -> ast.AST:
                 return n
         return T().visit(x)
     return rec(_copy.deepcopy(e), depth)
+
+
+def flat_nodes(e: ast.AST, env: Optional[Dict[str, ast.AST]] = None, depth: int = 6):
+    """like flat_subscript, but returns the index expressions as nodes: (base text, [index nodes])"""
+    idx: List[ast.AST] = []
+    while depth > 0:
+        depth -= 1
+        while isinstance(e, ast.Subscript):
+            sl = e.slice
+            idx = (list(sl.elts) if isinstance(sl, ast.Tuple) else [sl]) + idx
+            e = e.value
+        if isinstance(e, ast.Name) and env and e.id in env:
+            e = env[e.id]
+            continue
+        break
+    if isinstance(e, (ast.Name, ast.Attribute)):
+        return norm(e), idx
+    return None
 
 
 def flat_subscript(e: ast.AST, env: Optional[Dict[str, ast.AST]] = None, depth: int = 6):
